@@ -47,6 +47,32 @@ CHECKS.update({
             "DESIGN.md §3 C18"),
 })
 
+CHECKS.update({
+    "C13": ("exploration",
+            "runtime contracts (icontract) on export_param_value / export_prefixed / to_scalar / to_prefixed judged by an "
+            "independent ParamValue decoder, plus boundary comparison of exported Instance.parameters with the given values",
+            "Every primitive of hdl21.primitives and dict-/paramclass-typed external modules are instantiated with generated "
+            "values of every accepted type (ints to 64 bits, floats incl. subnormals, 1-40 digit Decimals, numeric / arbitrary "
+            "strings, Literals, enums, None, Prefixed x 21 prefixes), exported, decoded exactly and compared.",
+            "trusts hv.pkgread.decode_param (exact Fraction / bit-equal doubles); float Scalars judged by nearest-double equality",
+            "DESIGN.md §3 C13"),
+    "C06": ("exploration",
+            "on-return monitor on every successful to_proto (all aliases rebound): independent well-formedness walk of the package "
+            "plus acceptance by from_proto and the real spice/spectre netlisters",
+            "M-pkg judges every package produced while driving design generators, the examples, built-in generators, PDK-compiled "
+            "designs and the parameter space; closure (names, definition-before-use, port coverage, widths, ranges) is checked by "
+            "an independent reader.",
+            "per-kind name uniqueness; netlister acceptance not demanded for un-compiled hdl21.primitives",
+            "DESIGN.md §3 C06"),
+    "C11": ("exploration",
+            "on-return monitor on every successful to_proto: re-import with from_proto, re-export, protobuf equality with "
+            "first-differing-field witness",
+            "M-rt round-trips every package of the same corpora as C06 and compares field by field (order of every repeated field "
+            "included, except the traversal-dependent order of the ext_modules list).",
+            "ext_modules list compared as a set of definitions (its order is an artefact of export traversal, see DESIGN §5)",
+            "DESIGN.md §3 C11"),
+})
+
 NOT_APPLICABLE = {}
 
 
